@@ -165,3 +165,23 @@ Proof.
 Qed.
 
 End RULE.
+
+(* C07, the switch statement: what it does is decided by the scan's outcome --
+   the first matching case's body (and no other), the default body when no case
+   matches and there is one, nothing otherwise, or the error of a case value *)
+Theorem switch_statement_outcome U f r c :
+  typ r = typeSwitch -> switchArg r <> [] ->
+  exists x, switch_outcome (follow U f) r (child r) c x /\
+    follow U (S f) r c =
+      (let '(c', ok, e, early) := x in
+       if early then (c', e)
+       else if ok then (c', e)
+       else match first_default (child r) with
+            | Some d => follow U f d c'
+            | None => (c', e)
+            end).
+Proof.
+  intros Ht Ha. exists (switch_classic (follow U f) r (child r) c false). split.
+  - apply switch_classic_outcome.
+  - rewrite (follow_switch U f r c Ht). destruct (switchArg r); [congruence|reflexivity].
+Qed.
